@@ -118,7 +118,7 @@ class Obligation:
 
 
 def write_replay(prop, obligation, payload):
-    d = os.path.join(VERIF, 'replays', prop)
+    d = os.path.join(os.environ.get('VX_REPLAY_DIR') or os.path.join(VERIF, 'replays'), prop)
     os.makedirs(d, exist_ok=True)
     safe = ''.join(c if c.isalnum() or c in '-_.' else '_' for c in obligation)[:150]
     p = os.path.join(d, safe + '.json')
